@@ -42,8 +42,38 @@ def relevant(hist, obs):
                and op[0] == "L" and (";3;0;22;" in op[1] or ";3;0;32;" in op[1]) for op, o in zip(hist, obs))
 
 
+def several_pending(rng, version, hist):
+    """a sleeping node with two children and two reported value types each; the controller sets two to four of
+    them while it sleeps; it wakes up (all of them are due in the same burst), reports one, wakes up again"""
+    node = rng.choice([1, 2, 7, 42])
+    wake = f"{node};255;3;0;{32 if version == '2.2' else 22};{gw.wake_payload(rng)}\n"
+    kids = rng.sample([0, 1, 5, 9], 2)
+    val = {2: lambda: rng.choice(["0", "1"]), 3: lambda: str(rng.randrange(101))}
+    script = [("L", f"{node};255;0;0;17;{version}\n")]
+    for c in kids:
+        script += [("L", f"{node};{c};0;0;4;dimmer {c}\n"), ("L", f"{node};{c};1;0;2;{val[2]()}\n"),
+                   ("L", f"{node};{c};1;0;3;{val[3]()}\n")]
+    script.append(("L", wake))
+    pairs = rng.sample([(c, t) for c in kids for t in (2, 3)], rng.randrange(2, 5))
+    script += [("S", node, c, t, val[t](), None) for c, t in pairs]
+    script.append(("L", wake))
+    c, t = rng.choice(pairs)
+    script += [("L", f"{node};{c};1;0;{t};{val[t]()}\n"), ("L", wake)]
+    k = rng.randrange(len(hist) + 1)
+    return list(hist[:k]) + script + list(hist[k:])
+
+
+CFG["post"].append(lambda rng, version, hist: several_pending(rng, version, hist) if rng.random() < 0.2 else hist)
+
+
 def run(tier, seed, driver):
+    import random
+    from . import c05
     res = gwfam.run_family("C08", tier, seed, driver, CFG, relevant)
+    # the same wake-up bursts on the threaded gateway, where a job runs after the handler that queued it has
+    # returned: what goes out must be what the asyncio gateway sends for the same lines
+    c05.threaded_part(res, random.Random(seed * 7919 + 8), tier, episode=several_pending,
+                      versions=["2.0", "2.1", "2.2"])
     res.rule = ("histories for 2.0-2.2 biased to wake-ups, reports, value requests, presentations after the first "
                 "wake-up and controller sets (valid and invalid values, string value types, ack 0/1/2) for nodes "
                 "whose presented version equals / is older than / was never presented relative to the gateway's; "
@@ -52,4 +82,7 @@ def run(tier, seed, driver):
 
 
 def replay(payload):
+    if (payload.get("replay") or {}).get("op") == "threaded":
+        from . import c05
+        return c05.replay(payload)
     return gwfam.replay_family("C08", payload)
